@@ -37,7 +37,7 @@ fn meta() -> Meta {
     Meta {
         id: "C13",
         level: "exploration",
-        rule: "routing: every brace list of <= 4 (quick, 205 lists) / 5 (thorough, 325 lists) distinct names from {A, B, S_Default (a registered name that merely contains _Default), ' A' (unknown: names are taken verbatim, blanks included), _Default} in every order plus plain targets {m, m::x, other} x 5 levels x module path {m, other, absent} x specification {off, error, info, trace, off,m=debug} x primary {recording writer, file}; duplication: 7 x 7 Duplicate settings for stderr x stdout x 5 levels at build time, and every ordered pair (old, new) through adapt_duplication_to_stderr / _stdout; distinct_nontrivial = distinct (specification, primary, target, level, module path) probes that address at least one additional writer, plus duplication probes with a non-None setting; routing also through a logger without any additional writer; one more unit routes records while an additional FileLogWriter fails with ENOSPC on every write (what is addressed to it reaches nobody else); plus an auxiliary free-running pass (sampling) in which two threads adapt the two duplication levels at the same moment, 3000 / 40000 rounds",
+        rule: "routing: every brace list of <= 4 (quick, 205 lists) / 5 (thorough, 325 lists) distinct names from {A, B, S_Default (a registered name that merely contains _Default), ' A' (unknown: names are taken verbatim, blanks included), _Default} in every order plus plain targets {m, m::x, other} x 5 levels x module path {m, other, absent} x specification {off, error, info, trace, off,m=debug} x primary {recording writer, file}; duplication: 7 x 7 Duplicate settings for stderr x stdout x 5 levels at build time, and every ordered pair (old, new) through adapt_duplication_to_stderr / _stdout; distinct_nontrivial = distinct (specification, primary, target, level, module path) probes that address at least one additional writer, plus duplication probes with a non-None setting; routing also through a logger without any additional writer; one more unit routes records while an additional FileLogWriter fails with ENOSPC on every write (what is addressed to it reaches nobody else); plus an auxiliary free-running pass (sampling) in which two threads adapt the two duplication levels at the same moment, 3000 / 40000 rounds; the duplicate streams have distinct formats",
         assumptions: vec![
             "repeated names in one brace list are not enumerated (the statement does not define them)".into(),
             "stdout / stderr are observed by redirecting fd 1 / 2 of the worker process".into(),
